@@ -19,9 +19,10 @@ ReqRepTopics ==
 GoodReqRep(t) == /\ (t.traffic = "flowing" => t.requestors > 0)
                  /\ (t.replier \/ t.requestors > 0)
 Topics == {t \in PubSubTopics : GoodPubSub(t)} \cup {t \in ReqRepTopics : GoodReqRep(t)}
-Cases == {[topics |-> ts, leaver |-> lv, late_regs |-> lr, settle_ms |-> sm] :
+\* stuck_reg: a registration whose peer never reads its Ok is in flight (it holds a clone of the topic's sender)
+Cases == {[topics |-> ts, leaver |-> lv, late_regs |-> lr, settle_ms |-> sm, stuck_reg |-> sr] :
             ts \in {<<a>> : a \in Topics} \cup {<<a, b>> : a \in Topics, b \in Topics},
-            lv \in BOOLEAN, lr \in {0, 2, 5}, sm \in {0, 30}}
+            lv \in BOOLEAN, lr \in {0, 2, 5}, sm \in {0, 30}, sr \in BOOLEAN}
 VARIABLE c
 Init == c \in Cases
 Next == UNCHANGED c
